@@ -420,6 +420,22 @@ class ConstGuardClient(flow.Client):
         neg = x['kind'] == 'UnaryOperator' and x.get('opcode') == '!'
         if neg:
             return [s], [True]
+        if x['kind'] == 'BinaryOperator' and x.get('opcode') == '||':
+            # `!decl || !decl->getExpr()->isConst()`: the else branch is the one on which the expression is constant
+            disj = []
+
+            def flat(y):
+                y = strip(y)
+                if y['kind'] == 'BinaryOperator' and y.get('opcode') == '||':
+                    for c_ in children(y):
+                        flat(c_)
+                else:
+                    disj.append(y)
+            flat(x)
+            with_c = [y for y in disj if any(callee_of(c)[1] == 'isConst' for c in calls_in(y))]
+            if with_c and all(y['kind'] == 'UnaryOperator' and y.get('opcode') == '!' for y in with_c):
+                return [s], [True]
+            return [s], [s]
         return [True], [s]
 
     def _is_valdecl_getvalue(self, e):
